@@ -14,7 +14,7 @@ func init() {
 			det.Budget = 12000000
 			cdet := f4Job("corpus-determinism", "VerifCorpusDeterminism", 0, []string{"ran"}, []string{"C05-same-output"},
 				"the repository's example programs (/repo/test/*.rb with a plain invocation and at most 60 lines; quick tier: a sample of 40 chosen by VERIF_SEED, thorough tier: all) x 9 output modes (-i, --suggest, --hover, --llm-nav, --llm-define, --llm-class, --define, diagnostics, --llm-nav --all; row-based modes on the last row), each analysed twice in one path with the iteration order of the five global maps flipped per range statement")
-			cdet.Config, cdet.Budget = "", 400000000
+			cdet.Config, cdet.Budget = "", 80000000
 			if tier != "thorough" {
 				// two analyses per path and a schedule variable per range statement: thorough tier only
 				return []*Job{
